@@ -888,6 +888,21 @@ func (x *Engine) guardCheck(fr *Frame, st *State, ins ssa.Instruction) {
 		switch i := ins.(type) {
 		case *ssa.MapUpdate:
 			check(gd, true, "map update")
+			if gd.insertOnce && hasProp(gd.props, x.curProp) {
+				// entries of this table are created once: the slot written must still be empty (other threads may
+				// have filled it since this thread last looked — see guardInterference)
+				mv, kv := x.val(fr, i.Map), x.val(fr, i.Key)
+				cur := x.mapLookup(st, mv, kv)
+				empty := fmt.Sprintf("(not %s)", x.mapHas(st, mv, kv))
+				if x.sortOf(cur.Typ) == "Int" {
+					empty = fmt.Sprintf("(or %s (= %s 0))", empty, cur.T)
+				}
+				p := posOf(x.prog, ins.Pos())
+				x.ordinals["guard:once:"+gd.g.Name()]++
+				o := x.obligeNoAssume(st, "guard", fmt.Sprintf("entry-of-%s-created-only-once#%d", gd.g.Name(), x.ordinals["guard:once:"+gd.g.Name()]), empty,
+					fmt.Sprintf("the entry of %s written at %s is still empty (check and insert under one acquisition of %s)", gd.g.Name(), p, gd.mu.Name()), p)
+				o.Props, o.Tagged = gd.props, true
+			}
 		case *ssa.Range:
 			check(gd, false, "range")
 			fr.guarded[i] = gd
@@ -980,4 +995,31 @@ func (x *Engine) notHeldTerms(st *State, pkg *ssa.Package, fs *FuncSpec) []strin
 		}
 	}
 	return out
+}
+
+// guardInterference: when this thread acquires a mutex, whatever it knew about the variables guarded by that mutex is
+// stale — other threads may have changed them while it did not hold the lock (thread-modular view; only under the
+// property of the guard declarations).
+func (x *Engine) guardInterference(st *State, mu string) {
+	for _, gd := range x.guards {
+		if !hasProp(gd.props, x.curProp) || x.mutexTerm(gd.mu) != mu {
+			continue
+		}
+		key := x.globalKey(gd.g)
+		old := x.get(st, key)
+		if mt, ok := gd.g.Type().(*types.Pointer).Elem().Underlying().(*types.Map); ok {
+			dom, val := x.mapKeys(mt)
+			for _, k := range []string{dom, val, "MapLen"} {
+				cur := x.get(st, k)
+				row := x.fresh("ifr")
+				srt := x.compSortOf(k)
+				// (Array Int X): forget the row of the old map object
+				x.decl(row, strings.TrimSuffix(strings.TrimPrefix(srt, "(Array Int "), ")"))
+				st.h[k] = x.name("H", srt, fmt.Sprintf("(store %s %s %s)", cur, old, row))
+			}
+		}
+		x.havocKey(st, key)
+		nv := x.get(st, key)
+		x.assume(st, x.wf(gd.g.Type().(*types.Pointer).Elem(), nv, st))
+	}
 }
